@@ -50,16 +50,35 @@ fn gen_tpl(rng: &mut Rng) -> Tpl {
     };
     args.insert(Arc::from("a"), a);
     let is_min = op == ">" || op == ">=";
-    let second = if rng.chance(1, 3) {
-        let op2 = *rng.pick(&["<=", ">=", "!=", ">"]);
-        args.insert(Arc::from("b"), count_arg(rng));
+    // a second count filter; together with a lower bound (`>` / `>=`) an EXCLUSION (`!=`, `not_one_of`) with small
+    // arguments is the interesting combination (the exclusion must be evaluated on the real count)
+    let second = if rng.chance(if is_min { 3 } else { 1 }, if is_min { 5 } else { 3 }) {
+        let op2 = if is_min { *rng.pick(&["!=", "!=", "not_one_of", "<=", ">=", ">"]) } else { *rng.pick(&["<=", ">=", "!=", ">"]) };
+        let b = if op2 == "not_one_of" {
+            FieldValue::List(Arc::from((0..1 + rng.below(2)).map(|_| FieldValue::Int64(rng.range(0, 3))).collect::<Vec<_>>()))
+        } else if op2 == "!=" {
+            FieldValue::Int64(rng.range(0, 4))
+        } else {
+            count_arg(rng)
+        };
+        args.insert(Arc::from("b"), b);
         Some(op2)
     } else {
         None
     };
     let min_eligible_ops = is_min && second.map(|o| o == ">" || o == ">=").unwrap_or(true);
     let second_txt = second.map(|o| format!(" @filter(op: \"{o}\", value: [\"$b\"])")).unwrap_or_default();
-    let shape = rng.below(8);
+    // the unobserved fold (shape 0), where the engine really truncates, gets a third of the worlds
+    let shape = match rng.below(21) {
+        0..=6 => 0,
+        7 | 8 => 1,
+        9 | 10 => 2,
+        11 | 12 => 3,
+        13 | 14 => 5,
+        15 | 16 => 6,
+        17 | 18 => 7,
+        _ => 4,
+    };
     let (body, observed, count_out): (String, bool, Option<String>) = match shape {
         0 => {
             // plain count filter, nothing observes the count or the contents
@@ -349,5 +368,56 @@ pub fn run_fold_then_recurse(seed: u64, n: usize, out: &mut Out) {
         }
         out.add(Case { input: input.clone(), coq: format!("run_exec {coq_args}"), imp: imp.clone(), nontrivial, key: format!("fr{i}:{text}") });
         out.add_spec(Case { input, coq: format!("run_sem {coq_args}"), imp, nontrivial, key: format!("sfr{i}:{text}") }, None);
+    }
+}
+
+
+/// Folds under @optional scopes inside folds (the defaults compute_fold fills in for nested folds whose
+/// scope does not exist), three levels deep, with property and count outputs.
+pub fn run_optional_nested_folds(seed: u64, n: usize, out: &mut Out) {
+    let mut rng = Rng::new(seed ^ 0x0b7f);
+    let schema = world::schema();
+    for i in 0..n {
+        let mut r2 = rng.fork();
+        let root = *r2.pick(&["Thing", "Item", "Box", "Gadget"]);
+        let e1 = *r2.pick(&["link", "next", "next(hi: 9)"]);
+        let e2 = *r2.pick(&["parent", "next(lo: 7)", "next(hi: 2)", "link"]);
+        let e3 = *r2.pick(&["next", "link", "parent"]);
+        let inner = match r2.range(0, 2) {
+            0 => format!("{e3} @fold {{ id @output(name: \"z\") }}"),
+            1 => format!("{e3} @fold @transform(op: \"count\") @output(name: \"c\")"),
+            _ => format!("{e3} @fold @transform(op: \"count\") @output(name: \"c\") {{ id @output(name: \"z\") link @fold {{ id @output(name: \"w\") }} }}"),
+        };
+        let text = match r2.range(0, 2) {
+            0 => format!("query {{ {root} {{ id @output(name: \"r\") {e1} @fold {{ id @output(name: \"m\") {e2} @optional {{ {inner} }} }} }} }}"),
+            1 => format!("query {{ {root} {{ id @output(name: \"r\") {e2} @optional {{ {e1} @fold {{ id @output(name: \"m\") {inner} }} }} }} }}"),
+            _ => format!("query {{ {root} {{ id @output(name: \"r\") {e1} @fold {{ {e2} @optional {{ id @output(name: \"m\") {inner} }} }} }} }}"),
+        };
+        let indexed = match parse(&schema, &text) {
+            Ok(ix) => ix,
+            Err(_) => {
+                out.count("optional-nested-folds:template-rejected");
+                continue;
+            }
+        };
+        out.count("family:optional-nested-folds");
+        let c = EngineCase {
+            dataset: world::gen_dataset(&mut r2, 8),
+            query_text: text.clone(),
+            indexed,
+            args: Arc::new(BTreeMap::new()),
+            features: Default::default(),
+            var_hints: Default::default(),
+        };
+        let o = run_impl(&c);
+        let imp = show_outcome(&o);
+        let nontrivial = matches!(&o, Outcome::Rows(r) if !r.is_empty());
+        let input = case_input_json(&c);
+        let coq_args = case_coq_args(&c);
+        if let Outcome::Panic(m) = &o {
+            out.oracle_fail("executing an accepted query panicked", input.clone(), json!({"panic": m.chars().take(300).collect::<String>()}));
+        }
+        out.add(Case { input: input.clone(), coq: format!("run_exec {coq_args}"), imp: imp.clone(), nontrivial, key: format!("on{i}:{text}") });
+        out.add_spec(Case { input, coq: format!("run_sem {coq_args}"), imp, nontrivial, key: format!("son{i}:{text}") }, None);
     }
 }
